@@ -64,7 +64,7 @@ Value& STRPOSExpression::value(Context & ctx) const
         if (a2.type().major() == Type::INTEGER)
           s = *a2.integer();
         else
-          s = Integer(*a2.numeric());
+          s = Value::integerOf(*a2.numeric());
         break;
       default:
         throw RuntimeError(EXC_RT_FUNC_ARG_TYPE_S, KEYWORDS[oper]);
